@@ -251,6 +251,52 @@ def descendantForPointRangePort (lang : Lang) (fuel : Nat) (self : NodeRef) (rs 
       | some c => go f c (if c.relevant lang anon then c else last)
   some (go fuel self self)
 
+/-- Does the search path of `ts_node__descendant_for_byte_range` (the raw children it descends into,
+hidden ones included) visit a zero-width node?  This is the condition of the known defect
+"descendant-range-zero-width": an empty raw node — possibly a hidden leaf such as a zero-width
+external token — is entered first and ends the search. -/
+def descendantBytePathHasEmpty (lang : Lang) (fuel : Nat) (self : NodeRef) (rs re : Nat) : Bool :=
+  if rs > re then false else
+  let rec scan : List RawChild → Option NodeRef
+    | [] => none
+    | rc :: rest =>
+      let nodeEnd := rc.posAfter.bytes
+      if nodeEnd < re then scan rest
+      else
+        let isEmpty := rc.node.startByte == nodeEnd
+        if (if isEmpty then nodeEnd < rs else nodeEnd ≤ rs) then scan rest
+        else if rs < rc.node.startByte then none
+        else some rc.node
+  let rec go (f : Nat) (node : NodeRef) : Bool :=
+    match f with
+    | 0 => false
+    | f + 1 =>
+      match scan (rawChildren lang node) with
+      | none => false
+      | some c => (c.startByte == c.endByte) || go f c
+  go fuel self
+
+def descendantPointPathHasEmpty (lang : Lang) (fuel : Nat) (self : NodeRef) (rs re : TSPoint) : Bool :=
+  if point_gt rs re then false else
+  let rec scan : List RawChild → Option NodeRef
+    | [] => none
+    | rc :: rest =>
+      let nodeEnd := rc.posAfter.extent
+      if point_lt nodeEnd re then scan rest
+      else
+        let isEmpty := point_eq rc.node.start.extent nodeEnd
+        if (if isEmpty then point_lt nodeEnd rs else point_lte nodeEnd rs) then scan rest
+        else if point_lt rs rc.node.start.extent then none
+        else some rc.node
+  let rec go (f : Nat) (node : NodeRef) : Bool :=
+    match f with
+    | 0 => false
+    | f + 1 =>
+      match scan (rawChildren lang node) with
+      | none => false
+      | some c => (c.startByte == c.endByte) || go f c
+  go fuel self
+
 /-- `ts_node__field_name_from_language`: first non-inherited entry for the structural index. -/
 def fieldFromLanguage (lang : Lang) (n : NodeRef) (si : Nat) : Option Nat :=
   ((lang.fieldMap n.t.data.productionId).toList.find? fun m => !m.inherited && m.childIndex == si).map (·.fieldId)
